@@ -147,7 +147,7 @@ class C01(Prop):
                    "ai_agent checkpoint after it", "a moved (cut-and-pasted) line may be credited to its writer or to the mover (no property defines it); every other line stays strictly checked",
                    "blank / whitespace-only lines are unconstrained", "identical line texts written by several "
                    "authors may be assigned to any of those authors (the diff's freedom)",
-                   "checkpoint clock is strictly increasing (clock faults are a separate sub-mode)"]
+                   "in 15 % of the runs the checkpoint clock ties or steps back between checkpoints (clock faults)"]
     expected_probes = ["ai_lines_observed", "multi_session", "hazard_regime", "dirty_buffer"]
 
     def header(self, rng, tier, index):
